@@ -11,7 +11,7 @@ Checks, all in a throw-away git worktree of /repo's HEAD (never in /repo itself)
 """
 import json, os, re, shutil, subprocess, sys, time
 
-ENV = dict(os.environ, GOFLAGS="-mod=mod", GOPROXY="off", GOSUMDB="off")
+ENV = dict(os.environ, GOFLAGS="-mod=mod", GOPROXY="off", GOSUMDB="off", GOTOOLCHAIN="local", PATH="/root/go/pkg/mod/golang.org/toolchain@v0.0.1-go1.23.12.linux-amd64/bin:" + os.environ["PATH"])
 
 
 def run(cmd, cwd, timeout=1800):
